@@ -66,6 +66,21 @@ class Run:
             self.errors.append('%s: internal error of the rule on this tree (%s: %s)' % (getattr(fn, '__name__', 'group'), type(e).__name__, str(e)[:160]))
             return None
 
+    def forgive(self, value_group, reading_groups, credits=()):
+        """A rule group that decides on values (small concrete sizes) stands next to groups that read the code for the same facts.  When the
+        value group could not follow this tree but every reading group that covers its facts decided, its refusal is not a refusal of the
+        check: the property part is decided as it was before the value group existed.  Said in the evidence; the instance floors the value
+        group would have filled are credited."""
+        v = [e for e in self.errors if e.startswith(value_group + ':')]
+        r = [e for e in self.errors if any(e.startswith(g + ':') for g in reading_groups)]
+        if v and reading_groups and not r:
+            self.errors = [e for e in self.errors if e not in v]
+            self.infos.append('%s could not follow this tree (%s); the same facts were decided by %s' % (value_group, v[0][len(value_group) + 2:][:200], ', '.join(reading_groups)))
+            for rule, n in credits:
+                self.credit(rule, n, '%s refused; decided by %s' % (value_group, ', '.join(reading_groups)))
+            return True
+        return False
+
     # -- recording ---------------------------------------------------------
     def rule(self, name, text):
         """Declare a rule (its one-line statement appears in the evidence)."""
